@@ -134,9 +134,145 @@ def mutate(rng, case, j):
     return gen_case(rng, "m%d" % j, n=8)
 
 
+# ---------------------------------------------------------------------------------------
+# stream `pkt`: hostile datagrams and transport-parameter blobs
+# ---------------------------------------------------------------------------------------
+
+def hostile_datagram(rng):
+    r = rng.random()
+    if r < 0.15:
+        return pc.rand_bytes(rng, rng.choice([0, 1, 2, 5, 6, 7, 20, 40, 100]))
+    kind, f = pc.rand_header(rng)
+    if kind in (pc.H_VN, pc.H_RETRY):
+        wire = bytearray(pc.encode_header(kind, f))
+    else:
+        pkt, _ = pc.data_packet(rng, kind, f, rng.choice([0, 1, 19, 20, 21, 60]))
+        wire = bytearray(pkt)
+    if r < 0.4:
+        return bytes(wire[:rng.randint(0, len(wire))])
+    if r < 0.85:
+        for _ in range(rng.randint(1, 3)):
+            if wire:
+                k = rng.randrange(min(len(wire), 40))
+                wire[k] = rng.choice([0, 1, 20, 21, 0x3f, 0x40, 0x7f, 0x80, 0xc0, 0xff, rng.getrandbits(8)])
+        return bytes(wire)
+    return bytes(wire) + hostile_datagram(rng)
+
+
+def hostile_params(rng):
+    r = rng.random()
+    if r < 0.1:
+        return pc.rand_bytes(rng, rng.choice([0, 1, 2, 3, 7, 30]))
+    role = rng.randint(0, 1)
+    if r < 0.5:
+        # one parameter with a boundary length / malformed body: every id x {0, 1, typed len +-1, 21, big}
+        pid = rng.choice(list(pc.PARAMS) + [0x1234, 27])
+        ln = rng.choice([0, 1, 2, 3, 4, 7, 8, 9, 15, 16, 17, 20, 21, 22, 40, 41, 42, 63, 64])
+        body = pc.rand_bytes(rng, ln)
+        if rng.random() < 0.3 and ln:
+            body = bytes([rng.choice([0, 1, 20, 21, 0x40, 0x80, 0xc0])]) + body[1:]
+        declared = ln if rng.random() < 0.8 else ln + rng.choice([-1, 1, 200])
+        return pc.varint(pid) + pc.varint(max(0, declared)) + body
+    ps = pc.rand_params(rng, role)
+    blob = bytearray(b"".join(pc.encode_param(pid, pc.PARAMS[pid], v) for pid, v in ps.items()))
+    if r < 0.75:
+        return bytes(blob[:rng.randint(0, len(blob))])
+    for _ in range(rng.randint(1, 3)):
+        if blob:
+            blob[rng.randrange(len(blob))] = rng.choice([0, 1, 20, 21, 0x40, 0x80, 0xc0, 0xff, rng.getrandbits(8)])
+    return bytes(blob)
+
+
+def gen_pkt_case(rng, name, n=14):
+    ops = []
+    for _ in range(n):
+        r = rng.random()
+        if r < 0.35:
+            ops.append((10, [rng.choice([0, 4, 8, 8, 20]), hostile_datagram(rng)]))
+        elif r < 0.55:
+            ops.append((11, [rng.choice([0, 8, 20]), hostile_datagram(rng) + (hostile_datagram(rng) if rng.random() < 0.5 else b"")]))
+        elif r < 0.9:
+            ops.append((13, [rng.randint(0, 1), hostile_params(rng)]))
+        else:
+            ops.append((15, [hostile_params(rng)]))
+    return Case(name, ops)
+
+
+def pkt_oracle(case, obs):
+    if len(obs) != len(case.ops):
+        return "length: %d observations for %d ops (%s)" % (len(obs), len(case.ops), obs[-1] if obs else "")
+    for k, ((tag, args), line) in enumerate(zip(case.ops, obs)):
+        n = len(args[-1])
+        if line.startswith("!"):
+            what = "datagram" if tag in (10, 11) else "transport-parameter blob"
+            return "abnormal: op %d -> %s (decoder panicked or hung on a %d-byte %s)" % (k, line, n, what)
+        v = [int(x) for x in line.split()]
+        if tag == 10:
+            if v[0] == 0 and not (0 < v[2] <= n and 0 <= v[3] <= v[2]):
+                return "bounds: op %d packet total %d offset %d in a %d-byte datagram" % (k, v[2], v[3], n)
+            if v[0] not in (0, 1):
+                return "outcome: op %d -> %s" % (k, v[:3])
+        elif tag == 11:
+            i, total = 0, 0
+            while i < len(v):
+                if v[i] == 0:
+                    if v[i + 2] <= 0:
+                        return "progress: op %d packet reader yielded a packet without consuming input" % k
+                    total += v[i + 2]
+                    i += 4
+                elif v[i] == 1:
+                    i += 2
+                    if i != len(v):
+                        return "afterr: op %d packet reader continued after an error" % k
+                else:
+                    return "outcome: op %d -> %s" % (k, v[i:i + 3])
+            if total > n:
+                return "overrun: op %d packet reader consumed %d of %d bytes" % (k, total, n)
+        elif tag in (13, 15):
+            if v[0] == 1 and v[1] != 8:
+                return "errkind: op %d parameter error mapped to connection error %d (want TRANSPORT_PARAMETER=8)" % (k, v[1])
+            if v[0] not in (0, 1):
+                return "outcome: op %d -> %s" % (k, v[:3])
+    return None
+
+
+def pkt_hist(case):
+    return [{10: "be_packet", 11: "reader", 13: "params", 15: "remembered"}.get(t, "?") for t, a in case.ops]
+
+
+def gen_pkt(rng, tier):
+    n = 1200 if tier == "quick" else 30000
+    cases = [gen_pkt_case(rng, "q%d" % i) for i in range(n)]
+    # every parameter id x boundary lengths, both roles
+    ops = []
+    for pid in list(pc.PARAMS) + [27]:
+        for ln in (0, 1, 2, 3, 8, 15, 16, 17, 20, 21, 41, 42, 43, 63, 64):
+            body = bytes((7 * i + 1) % 256 for i in range(ln))
+            for role in (0, 1):
+                ops.append((13, [role, pc.varint(pid) + pc.varint(ln) + body]))
+    for i in range(0, len(ops), 40):
+        cases.append(Case("pb%d" % i, ops[i:i + 40]))
+    # long-header connection-id length bytes 0..255 in both positions
+    ops = []
+    for ln in list(range(0, 24)) + [63, 64, 128, 255]:
+        for first in (0xc0, 0xd0, 0xe0, 0xf0, 0x80):
+            ver = 0 if first == 0x80 else 1
+            ops.append((10, [8, bytes([first]) + ver.to_bytes(4, "big") + bytes([ln]) + bytes(40)]))
+            ops.append((10, [8, bytes([first]) + ver.to_bytes(4, "big") + bytes([4, 1, 2, 3, 4, ln]) + bytes(40)]))
+    for i in range(0, len(ops), 40):
+        cases.append(Case("cid%d" % i, ops[i:i + 40]))
+    return cases
+
+
 STREAMS = [{
     "name": "codec", "pkg": "hb", "bin": "impl_codec",
     "gen": gen, "oracle": oracle, "nontrivial": nontrivial, "hist": hist, "mutate": mutate,
     "profiles": ("debug", "release"), "profiles_thorough": ("debug", "release"),
     "rule": RULE,
+}, {
+    "name": "pkt", "pkg": "hb", "bin": "impl_pkt",
+    "gen": gen_pkt, "oracle": pkt_oracle, "nontrivial": lambda c: len(c.ops) >= 4, "hist": pkt_hist,
+    "mutate": lambda rng, case, j: gen_pkt_case(rng, "m%d" % j, n=6),
+    "profiles": ("debug", "release"), "profiles_thorough": ("debug", "release"),
+    "rule": "hostile datagrams (truncated / mutated / coalesced headers, every cid-length byte) and parameter blobs (every id x boundary lengths, truncations, mutations), all dcid lengths",
 }]
